@@ -837,5 +837,21 @@ func (e *Env) argEverywhere(v ssa.Value, depth int, pred func(ssa.Value) bool) b
 
 // IsFieldReadAll: IsFieldRead, for a parameter at every call site of its function.
 func (e *Env) IsFieldReadAll(v ssa.Value, suffix string) bool {
-	return e.argEverywhere(v, 0, func(x ssa.Value) bool { return e.IsFieldRead(x, nil, suffix) })
+	if e.argEverywhere(v, 0, func(x ssa.Value) bool { return e.IsFieldRead(x, nil, suffix) }) {
+		return true
+	}
+	// through the fields of a small request object the value was packed into
+	// (`req.body.RequestID` with `req.body = params.Body`): every alternative of the deep
+	// path ends in the wanted fields
+	ps, ok := e.DeepPaths(v)
+	if !ok || len(ps) == 0 {
+		return false
+	}
+	for _, p := range ps {
+		d := p.Dotted()
+		if d != suffix && !strings.HasSuffix(d, "."+suffix) {
+			return false
+		}
+	}
+	return true
 }
